@@ -256,7 +256,10 @@ pub fn get_navigation_node_from_braille_position(mathml: Element, position: usiz
     // save the current highlight state, set the state to be the end points so we can find the braille, then restore the state
     // FIX: this can fail if there is 8-dot braille
     use crate::interface::{get_preference, set_preference};
-    let saved_highlight_style = get_preference("BrailleNavHighlight".to_string()).unwrap();
+    if mathml.children().is_empty() {
+        bail!("MathML has not been set -- can't find a navigation node");
+    }
+    let saved_highlight_style = get_preference("BrailleNavHighlight".to_string())?;
     set_preference("BrailleNavHighlight".to_string(), "EndPoints".to_string()).unwrap();
 
     N_PROBES.with(|n| {*n.borrow_mut() = 0});
